@@ -42,7 +42,7 @@ Theorem C06_same_draws_same_run :
     agree A cfg st2 K ->
     cur (fst (fst (k_run A (sim_hooks A cfg react) c fuel s))) <= K ->
     k_run A (sim_hooks A (cfg2 cfg st2) react) c fuel s = k_run A (sim_hooks A cfg react) c fuel s.
-Proof. intros. apply k_run_stream; assumption. Qed.
+Proof. intros F A PS cfg st2 react c fuel s K Ha Hk. exact (k_run_stream A cfg st2 react c fuel s K Ha Hk). Qed.
 
 (** the generator is consulted only by transmissions, one draw per attempted copy, at the
     cursor: draws are consumed in a fixed order determined by the run itself *)
